@@ -262,6 +262,9 @@ def write_replay(pid, payload):
 
 
 def write_evidence(pid, ev):
+    if os.environ.get('VERIF_NO_EVIDENCE'):
+        # multi-seed sweeps (notes/sweep.sh) leave the evidence of the last regular run in place
+        return
     if REPO != '/repo':
         # a development run against a scratch copy (VERIF_REPO=<dir>, mutation trials): evidence describes
         # /repo's tree only, so it is not written
